@@ -219,6 +219,41 @@ def variants_stream(ctx, name, make, count, p_choices=(1, 2, 3), n_range=(36, 70
                     break
         except Exception as ex:
             fail("instance-reuse", f"raised {type(ex).__name__}: {str(ex)[:120]}")
+        # ---- a 0/1 column stored as BOOL next to float columns is data like any other (the same numbers as 0.0 / 1.0) ----
+        if p >= 2:
+            try:
+                Xb01 = Xn.copy()
+                Xb01[:, -1] = (Xb01[:, -1] > np.median(Xb01[:, -1])).astype(float)
+                fb = make().fit(Xb01.copy())
+                ref_b01 = _outputs(fb, Xb01.copy())
+                Fb = pd.DataFrame(Xb01[:, :-1].copy(), columns=[f"c{j}" for j in range(p - 1)])
+                Fb["flag"] = Xb01[:, -1].astype(bool)
+                db = make().fit(Fb)
+                out_b01 = _outputs(db, Fb)
+                if out_b01["predict"] != ref_b01["predict"] or out_b01["labels"] != ref_b01["labels"] or not _close(out_b01["scores"], ref_b01["scores"], score_rtol):
+                    fail("bool-column", f"a frame whose last column is stored as bool gives {str(out_b01['predict'])[:140]}, the same numbers as float64 give {str(ref_b01['predict'])[:140]} "
+                                        f"(detections, dense labels and scores compared)")
+            except Exception as ex:
+                fail("bool-column", f"raised {type(ex).__name__}: {str(ex)[:120]}")
+        # ---- an ARRAY with more columns than rows is still rows = time: the same outcome as the frame holding the same numbers ----
+        try:
+            nw = rng.randint(9, 14)
+            Xw = np.asarray([[rng.gauss(0, 1) for _ in range(nw + 3)] for _ in range(nw)])
+            Xw[nw // 2:] += 6.0              # a level shift in the middle of the (short) series, in every column
+
+            def _oc(f_):
+                try:
+                    return ("ok", f_())
+                except Exception as ex_:  # noqa
+                    return ("raised", type(ex_).__name__)
+            def _po(o_):
+                return (o_["predict"], o_["n_rows"], None if o_["scores"] is None else [round(float(v_), 9) for v_ in np.nan_to_num(np.asarray(o_["scores"], dtype=float))])
+            oa = _oc(lambda: _po(_outputs(make().fit(Xw.copy()), Xw.copy())))
+            of = _oc(lambda: _po(_outputs(make().fit(pd.DataFrame(Xw.copy())), pd.DataFrame(Xw.copy()))))
+            if oa != of:
+                fail("wide-array", f"a {nw} x {nw + 3} ndarray gives {str(oa)[:120]}, the frame holding the same numbers gives {str(of)[:120]}", {"wide": Xw.tolist()})
+        except Exception as ex:
+            fail("wide-array", f"raised {type(ex).__name__}: {str(ex)[:120]}")
         # ---- repeated index labels ----
         for kind in ("int-repeats", "datetime-repeats"):
             lab = np.sort(np.asarray([rng.randrange(0, n // 2) for _ in range(n)]))
